@@ -5,15 +5,21 @@ Proved on the machine model (`Model/Machine.lean`): while an element is cached i
 the log of evaluations started in any successful pop-free execution from empty caches has no duplicate), a self-referential definition
 ends in the recursion error instead of looping (`C19_self_reference_raises`, for every fuel ≥ 3, i.e. whatever recursion depth is allowed), values
 returned are the denotation (`C19_value`).
-Selection semantics (which cells an index expression of integers, lists and forward slices selects, masking of zero cells, views for
-finite-only indices, IndexError for infinite or negative orders) is NumPy's indexing engine plus `_check_finite`: it is *not* re-modelled
-in Lean; the correspondence `harness/index_corr.py` compares `BlockSeries[item]` with the same item on the dense object array for random
-shapes and index expressions, checks that exactly the selected elements are evaluated, that cached ones are not evaluated again and that
-offending orders raise IndexError; `harness/machine_corr.py` adds multi-element requests whose elements depend on each other
-(`box` requests) against the machine model.  Partial: NumPy is the trusted reference for the selection rules.
+Selection semantics is modelled as well (`Model/Index.lean`): NumPy's rule for items of integers, lists and forward slices (`select`:
+negative finite indices, clipping of slices, basic indexing, broadcast lists, placement of the advanced dimension) and the real code's
+resolution through a trial array (`getitem`: `_check_finite`, the count of indices, the trial shape, the evaluated positions).  Proved:
+`C19_numpy_semantics` — for every accepted item the answer is NumPy's selection on the dense array of *any* sufficiently large truncation
+of the series (the trial array suffices); `C19_evaluated_exactly_selected_once` — the evaluated positions are the selected elements, each
+once, in lexicographic order; `C19_in_bounds` — only in-range elements are ever addressed; `C19_negative_or_infinite_rejected` and
+`C19_wrong_number_rejected` — the IndexError clauses.  The model's `select` is itself compared with NumPy on dense arrays, and `getitem` with
+`BlockSeries[item]` (result shape, the source of every entry, the evaluated set, error class, views) by `harness/index_corr.py`;
+`harness/machine_corr.py` adds multi-element requests whose elements depend on each other (`box` requests) against the machine model.
+Trusted: NumPy's own indexing as the reference the model's `select` is tested (not proved) against; masking of `zero` entries is compared
+by the harness only.
 -/
 import PymaVerif.Proofs.MachineThm
 import PymaVerif.Proofs.MachineOnce
+import PymaVerif.Proofs.IndexBounds
 
 namespace Pyma
 namespace Props
@@ -40,6 +46,54 @@ theorem C19_self_reference_raises (S : Sys V) (s : SId) (i : Idx) (k : V → Scr
     have := World.get_set w s i (some Cell.pending) s i
     simpa [World.get] using this
   simp only [getItem, hw, hdef, run, hpend, rewrap]
+
+/-! ### which elements an index expression selects -/
+open Index in
+/-- **C19** indexing follows NumPy: for an item whose entries on the infinite dimensions are bounded and non-negative, the series answers
+with NumPy's selection on the dense array of every truncation at least as large as the trial array — the result shape and, entry by entry,
+the element it shows -/
+theorem C19_numpy_semantics (shape : List Nat) (fin inf : List Index.Ax) (big : List Nat) (hlen : shape.length = fin.length)
+    (hok : ∀ a ∈ inf, Index.AxOk a) (hbig : List.Forall₂ (fun a n => Index.trialLen a ≤ n) inf big) :
+    (Index.getitem shape inf.length (fin ++ inf)).map (fun a => (a.shape, a.sources))
+      = (Index.select (shape ++ big) (fin ++ inf)).map (fun r => (r.shape, r.sources)) := by
+  have hdrop : (fin ++ inf).drop shape.length = inf := by rw [hlen]; simp
+  have hcf : Index.checkFinite inf = true := (Index.checkFinite_iff inf).2 hok
+  unfold Index.getitem
+  rw [hdrop]
+  simp only [hcf, Bool.not_true, Bool.false_eq_true, ↓reduceIte, List.length_append, hlen, ne_eq, not_true_eq_false]
+  rw [Index.select_trunc shape fin inf big hlen hok hbig]
+  cases Index.select (Index.trialDims shape inf) (fin ++ inf) <;> rfl
+
+/-- **C19** exactly the selected elements are evaluated, each once (in lexicographic order) -/
+theorem C19_evaluated_exactly_selected_once (shape : List Nat) (ninf : Nat) (item : List Index.Ax) (a : Index.Answer)
+    (h : Index.getitem shape ninf item = .ok a) :
+    a.evaluated.Nodup ∧ a.evaluated.Pairwise (· < ·) ∧ ∀ t, t ∈ a.evaluated ↔ t ∈ a.sources := by
+  obtain ⟨r, _, rfl⟩ := Index.getitem_ok h
+  exact ⟨Index.positions_nodup _, Index.positions_sorted _, Index.mem_positions _⟩
+
+/-- **C19** only elements inside the trial array — in-range finite indices, orders below the trial length — are ever addressed -/
+theorem C19_in_bounds (shape : List Nat) (ninf : Nat) (item : List Index.Ax) (a : Index.Answer)
+    (h : Index.getitem shape ninf item = .ok a) :
+    ∀ s ∈ a.sources, List.Forall₂ (· < ·) s (Index.trialDims shape (item.drop shape.length)) := by
+  obtain ⟨r, hr, rfl⟩ := Index.getitem_ok h
+  exact Index.select_in_bounds hr
+
+/-- **C19** a negative order, a negative slice bound or a missing stop on an infinite dimension raises `IndexError` -/
+theorem C19_negative_or_infinite_rejected (shape : List Nat) (ninf : Nat) (item : List Index.Ax) (a : Index.Ax)
+    (ha : a ∈ item.drop shape.length) (hbad : ¬ Index.AxOk a) : Index.getitem shape ninf item = .error .index :=
+  Index.getitem_rejects shape ninf item a ha hbad
+
+/-- **C19** the wrong number of indices raises `IndexError` -/
+theorem C19_wrong_number_rejected (shape : List Nat) (ninf : Nat) (item : List Index.Ax) (h : item.length ≠ shape.length + ninf) :
+    Index.getitem shape ninf item = .error .index := by
+  unfold Index.getitem
+  by_cases hc : Index.checkFinite (item.drop shape.length) = true <;> simp [hc, h]
+
+-- non-vacuity: `series[-1, :3:2]`, `series[[0, 1], :, [1, 2]]` (advanced indices apart: their dimension comes first), `series[0, :-1]`
+example : Index.getitem [2] 1 [.int (-1), .slice none (some 3) 2] = .ok ⟨[2], [[1, 0], [1, 2]], [[1, 0], [1, 2]]⟩ := by decide
+example : (Index.getitem [2, 3] 1 [.list [0, 1], .slice none none 1, .list [1, 2]]).map (·.shape) = .ok [2, 3] := by decide
+example : Index.getitem [2] 1 [.int 0, .slice (some 0) (some (-1)) 1] = .error .index := by decide
+example : Index.getitem [2] 1 [.list [1, 1], .int 2] = .ok ⟨[2], [[1, 2], [1, 2]], [[1, 2]]⟩ := by decide
 
 end Props
 end Pyma
